@@ -367,6 +367,7 @@ PROPS["C08"] = {
 PROPS["C09"] = {
     "title": "Nearest-point queries return the global minimum",
     "gen_modules": ["Consts", "Basis", "Lines", "FatLine", "Walk", "Nearest", "Roots"],
+    "props_modules": ["C09", "C09Leaf"],
     "corr_n": (4000, 100000),
     "search_n": (4000, 80000),
     "technique": "Lean 4 theorems about the WHOLE nearest-point pipeline translated from the Rust source on every run (find_bezier_roots with count_x_axis_crossings, flat_enough, find_x_intercept, Newton, "
@@ -384,7 +385,13 @@ PROPS["C09"] = {
                   "ends, the sections it did not subdivide tile [0,1], and every zero in (0,1) (A) lies in a leaf with one crossing that passed flat_enough and contributed ONE value, or (B) is within 2^-49 "
                   "of a returned value (depth limit of commit 24cd67f), or (C) has a neighbourhood with quintic >= 0; nearest_t_within(_distance) - hence nearest_t is within 2 M delta (squared distance; sqrt(2 M delta) in "
                   "distance units) of the global minimum provided the loop ends within its fuel and FlatLeavesWithin delta holds. path_closest_point_argmin - the fold returns the FIRST curve of least distance with its own index, parameter, point, "
-                  "sqrt(distance^2); (0, 0, sqrt(f64::MAX), origin) for a path without curves (there is no None). NOT proved (named hypothesis FlatLeavesWithin): that the value reported for a flat "
+                  "sqrt(distance^2); (0, 0, sqrt(f64::MAX), origin) for a path without curves (there is no None). Flat leaves after repair 914de05 (Props/C09Leaf; find_x_intercept keeps the Newton-Raphson result only when it is a parameter of the section and bisects otherwise - before the repair a monotone but "
+                  "curved section could report the root of ANOTHER section and lose its own: nearest_t returned an end point 16 units away, 4 queries in 1.6 million): find_x_intercept_in_unit / flatValue_in_section - "
+                  "whatever Newton-Raphson computes, the value reported for a section over [a,b] lies in [a,b]; bisect_fold / find_x_intercept_bisection_spec - the generated bisection loop keeps 0 <= low <= high <= 1, "
+                  "halves the interval every iteration, keeps the sign class at low and the other class at high: after 64 iterations the result is the mid point of an interval of width 2^-64 across which the "
+                  "polynomial changes class; one_crossing_ends_differ - one crossing of the control polygon puts the two ends in different classes; over R (intermediate value theorem) bisection_near_zero / "
+                  "bisected_leaf_near_zero - a section that was bisected reports a value within (b-a)/2^65 of one of ITS OWN zeros. "
+                  "NOT proved (named hypothesis FlatLeavesWithin, now needed only for the branch in which the Newton result is kept): that the value reported for a flat "
                   "one-crossing leaf (30 Newton steps from the chord intercept) is close to that leaf's zero; and that the loop ends within the model's fuel of 100000 iterations (observed: the bit-exact "
                   "mirror would differ otherwise). Both are decided on the real code: the search compares with a brute-force minimum for every curve/query class and counts, for every sign change of the quintic, how closely find_bezier_roots returns it "
                   "(counters quintic.sign_change.*: 99.9 % within 1e-9, all within 1e-3 in parameter); the driver checks that every mirrored run of the loop ends within 2000 iterations (observed maximum 191).",
